@@ -59,6 +59,8 @@ for d in sorted(glob.glob(os.path.join(V, "seeded", "*", "meta.json"))):
     det = m.get("detected_by")
     if det:
         by = "; ".join("%s %s" % (x["check"], ", ".join(x["rules"])) for x in det)
+    elif m.get("analysis_incomplete") and m["property"] in m["analysis_incomplete"]:
+        by = "answers 2 (the change moves code into a new function: the disagreement is reported as analysis-incomplete, see restructured functions in section 10)"
     else:
         by = "**not caught**"
     out.append("| %s | %s | %s | %s |" % (m["id"], ", ".join(os.path.basename(f) for f in m["files"]), str(m.get("needs_to_manifest", ""))[:140].replace("|", "/"), by))
